@@ -1,5 +1,6 @@
 """C01 — check configuration and MANIFEST entry."""
 CFG = {
+    "translator": True,
     "count": {"quick": 64000, "thorough": 3000000},
     "lean_files": ["GeoModel/RelateSpec.lean", "GeoModel/Valid.lean", "GeoModel/Locate.lean", "GeoModel/Segment.lean",
                    "GeoModel/LineIntersection.lean", "GeoModel/Ops/C01.lean",
@@ -9,7 +10,8 @@ CFG = {
                    "GeoProofs/Lemmas/RelateSpecReverse.lean", "GeoProofs/Lemmas/C01QAtoms.lean",
                    "GeoProofs/Lemmas/C01QDisjoint.lean", "GeoProofs/Lemmas/C01QTypes.lean",
                    "GeoProofs/Lemmas/C01QAreal.lean", "GeoProofs/Lemmas/C01QPoint.lean",
-                   "GeoProofs/Lemmas/C01QTriangle.lean", "GeoProofs/Lemmas/C01QLine.lean"],
+                   "GeoProofs/Lemmas/C01QTriangle.lean", "GeoProofs/Lemmas/C01QLine.lean",
+                   "GeoModel/TRANPrelude.lean", "GeoModel/Gen/DimsGen.lean", "GeoProofs/Lemmas/TRANDims.lean"],
     "rule": "ordered pairs (A, B) over all 10 geometry types (Geometry enum on both sides) drawn from one shared 3..6 grid: polyomino polygons with "
             "holes (incl. holes tangent to the shell), star polygons, rectangles with holes, corner-touching multipolygons, self-avoiding lattice "
             "paths, multi line strings sharing end points (mod-2 rule), half-grid points, same-dimension collections; each case also relates the "
@@ -17,6 +19,9 @@ CFG = {
             "singleton Multi*/collection, member order). Operands outside the domain (invalid by the exact Lean validity spec) are SKIPped and counted. "
             "distinct by input text; cases with disjoint or empty bounding boxes are tagged triv and not counted.",
     "trusted_base": [
+        "translator/rs2lean.py + rsexpr.py (statement fragment): regenerates the HasDimensions impl bodies (Line, LineString, Polygon, Rect, Triangle, "
+        "MultiLineString::dimensions, MultiPolygon::dimensions) and LineString::is_closed from the Rust source on every run; explicit choices: Vec = List, "
+        "list-backed iterators (next = head, find = dropWhile of the negated predicate), unreachable!() arms = Empty (dead code; panics are seen by the harness)",
         "spec adequacy (S1): the arrangement atoms (vertices, elementary-edge midpoints, two infinitesimally displaced face samples per edge) meet "
         "every cell of the arrangement of A ∪ B — not proved; the spec is an independent definition (own winding computation, symbolic infinitesimals)",
         "spec adequacy (S2): for a valid ring, non-zero winding number ⇔ topological interior (Jordan)",
@@ -71,7 +76,11 @@ MANIFEST = {
             "the segments share more than one point (relateSpec_line_line_ii, relateSpec_line_line_ii_one, via li_single_exact / li_collinear_exact and "
             "exists_atom_between: between two vertices on a segment lies an elementary sub-segment midpoint). Not proved: DimsSpec for polygons without the "
             "interior-sample hypothesis and for collections; cell_complete beyond the forms in (8). The adequacy of the "
-            "specification w.r.t. point-set topology in general remains an explicit assumption (S1, S2), not a theorem.",
+            "specification w.r.t. point-set topology in general remains an explicit assumption (S1, S2), not a theorem. "
+            "Translator tie (TRAN): hasDimensions_eq_source — the dims / boundaryDims / isEmptyG clauses of Line, LineString, Polygon, Rect, Triangle, "
+            "MultiPoint, MultiLineString (dimensions, is_empty), MultiPolygon, GeometryCollection (dimensions and boundary_dimensions, the recursive calls being dims / boundaryDims) and "
+            "isClosedLS equal the terms regenerated from dimensions.rs / geo-types on this run (MultiLineString::boundary_dimensions — an iterator chain "
+            "with sort_by / chunk_by — and GeometryCollection::is_empty stay hand-written).",
     "note": "Trusted: Lean kernel + audited axioms; the harness/generators (sampling); spec adequacy S1/S2. Defects found by this check and repaired in /repo: "
             "Triangle vertical edge (29720670), MultiPolygon shared vertex (5f41a6da), MultiLineString boundary_dimensions mod-2 (17c66966).",
 }
